@@ -49,6 +49,21 @@ fn new_runtime(cfg: Option<&Value>) -> CoreRuntime {
                 }
             }
         }
+        if let Some(hp) = cfg.get("host_port") {
+            // a host-backed window (python_ranges + host_read): the host answers the k-th read with seq[k mod len],
+            // whatever the address - a data port whose value changes on its own between two reads
+            let start = u(&hp["range"], 0) as u32;
+            let end = u(&hp["range"], 1) as u32;
+            rt.memory.set_python_ranges(vec![(start, end)]);
+            let seq: Vec<u8> = hp["seq"].as_array().map(|a| a.iter().map(|x| x.as_u64().unwrap_or(0) as u8).collect())
+                .unwrap_or_else(|| vec![0]);
+            let mut k = 0usize;
+            rt.set_host_read(move |_addr| {
+                let v = seq[k % seq.len()];
+                k += 1;
+                Some(v)
+            });
+        }
         if let Some(p) = cfg.get("kb_press").and_then(|v| v.as_u64()) {
             if let Some(kb) = rt.keyboard.as_mut() {
                 kb.set_press_threshold(p as u8);
